@@ -41,10 +41,12 @@
   * `hex_literal_needs_base0`, `numeric_arguments_decimal_and_hex`, `numeric_arguments_accept_hex`,
     `argConvs_asShipped_counterexample`   `int(s)` rejects every `0x…` literal, `int(s, 0)` reads decimal and
                                           hex; as shipped six handler arguments and `-b` use `int(s)`
-  * `portstate_no_python_error`, `sdr_show_no_python_error`, `sensor_values_no_python_error`, `lin_domain`
+  * `portstate_no_python_error`, `sdr_show_no_python_error`, `sdr_show_state_no_python_error`,
+    `sensor_values_no_python_error`, `lin_domain`
     (+ `…_asShipped_counterexample`)      the printing handlers on a channel without link, on SDR types
-                                          without ID string / entity, on non-linear sensors outside the
-                                          domain of their function
+                                          without ID string / entity, on a sensor that flags "reading/state
+                                          unavailable", on non-linear sensors outside the domain of their
+                                          function
 -/
 import PyIpmi.Lemmas.Cli
 import PyIpmi.Lemmas.CliInt
@@ -434,6 +436,16 @@ theorem sdr_show_asShipped_counterexample :
           (sdrAttrs AsShipped.sdrClasses AsShipped.sdrDefault t.1).2).isSome).map (·.1)
       = [0x08, 0x09, 0x10, 0x13, 0x14, 0xC0] := by decide +kernel
 
+/-- `sdr show` / `sdr showall`: a sensor that flags "reading/state unavailable" (the API then returns
+`(None, None)`) does not end in a Python error, provided the state line is guarded -/
+theorem sdr_show_state_no_python_error (h : Gen.Cli.handlers.stateNoneGuard = true)
+    (r : Spec.Cli.SensorReading) : sdrStateRaises Gen.Cli.handlers r.isAvailable = none := by
+  unfold sdrStateRaises; rw [h]; simp
+
+theorem sdr_show_state_asShipped_counterexample :
+    sdrStateRaises AsShipped.handlers Spec.Cli.SensorReading.unavailable.isAvailable = some "TypeError" := by
+  decide +kernel
+
 /-- the model of the linearisation functions raises exactly outside the domain the specification gives -/
 theorem lin_domain :
     Spec.Cli.Lin.all.all (fun l => Spec.Cli.Sign.all.all fun s =>
@@ -500,8 +512,9 @@ example : (⟨10, 0, true⟩ : ArgConv).parse (ofString "0x0a") = some 10
     ∧ (⟨10, 0, false⟩ : ArgConv).parse (ofString "0x0a") = none := by decide +kernel
 example : catchesArithmetic ["ValueError", "ArithmeticError"] = true
     ∧ cellRaises ["ValueError", "ArithmeticError"] Spec.Cli.Lin.reciprocal.code .zero = none := by decide +kernel
-example : sdrShowRaises ⟨true, true, true, []⟩ false false = none
-    ∧ sdrShowRaises ⟨true, false, true, []⟩ false true = some "AttributeError" := by decide +kernel
+example : sdrShowRaises ⟨true, true, true, true, []⟩ false false = none
+    ∧ sdrShowRaises ⟨true, false, true, true, []⟩ false true = some "AttributeError"
+    ∧ sdrStateRaises ⟨true, true, true, true, []⟩ false = none := by decide +kernel
 -- a table with a shadowed entry is rejected by the side condition
 example : prefixFree [⟨ofString "bmc", [ofString "bmc"], 0, []⟩,
     ⟨ofString "bmc info", [ofString "bmc", ofString "info"], 0, []⟩] = false := by decide +kernel
